@@ -23,6 +23,11 @@ func init() {
 }
 
 func runC14(r *Run) {
+	poolInvalidationRules(r)
+	gab := "protocol.(chainBridge).AddAccountBlocks"
+	r.Has(gab, "recv.chain.AddAccountBlockTransaction(recv.chain.AcquireInsert(…),recv.supervisor.ApplyBlock(a0[(iter+1)])#0)", "gossiped blocks enter the pool under the fork-choice rule: every node must keep the same winner among unconfirmed competitors whatever the arrival order")
+	r.CallCount(gab, ".ForceAddAccountBlockTransaction", 0, "only blocks already chosen by a momentum producer are force-added (InsertChain), never gossip")
+	r.CacheInventory([]string{"chain", "chain/account", "chain/momentum"}, cacheTriage, "pool state is derived from the stable ledger")
 	// (1) locksets and windows
 	r.Lockset("chain", "accountPool", "changes", []string{"managers"},
 		[]string{"getAccountManager", "canRollback", "addAccountBlockTransaction", "rebuild", "getStableAccountStore", "getFrontierAccountStore", "getUncommittedAccountBlocksByAddress"}, nil,
